@@ -76,6 +76,11 @@ CHECKS = {
    note="Collections modelled: imports per file, files, overload families of an imported package, extension dependencies in exported signatures (sizes 0..3). Detection of an order dependence is probabilistic in the implementation (Go randomises map iteration): miss probability < 1e-4 with 3 items and 25 builds. Trusted: TLC, Go's map-iteration randomisation.",
    technique="TLA+ self-composition over free iteration orders (TLC exhaustive) + repeated in-process and cross-process builds of every enumerated program",
    design_ref="DESIGN.md section 5 C15"),
+ "C18": dict(level="model_checking",
+   text="Shared.tla: K builders (own package object, file set, importer) execute programs of 12 features over the library's shared package-level objects; Reads/Writes per feature as read from the code; TLC explores every interleaving, checks NoSharedWrite and RaceFree (and refutes them for a mutating feature) and prints the program tuples (pairs and triples). Binding: every feature runs alone between two deep snapshots of the registered shared objects (hook VerifSharedGlobals, build tag verif) so a write is detected without a lucky schedule; all 442 tuples run on unsynchronised goroutines released from one barrier in a race-instrumented child process, each package's bytes are compared with its sequential build and the race detector's log is read; the registry is cross-checked against the package-level variables parsed from /repo.",
+   note="The race detector only judges schedules that occur; snapshots cover the 19 registered shared objects (unregistered package-level tables are listed in the evidence and covered by the race run only). Features: nil, bool, builtins, iota, blank, range over enumerator, operators, import, paren rewrite, builtin-type methods, closures, literals. Trusted: TLC, Go race detector.",
+   technique="TLA+ access-set model with interleavings (TLC exhaustive) + snapshot comparison per feature + race-detector runs of every enumerated program tuple",
+   design_ref="DESIGN.md section 5 C18"),
 }
 
 def sh(cmd):
